@@ -497,3 +497,33 @@ addendum('C16', 'R8 memo transparency of get_sort; R9 tables rebuilt after '
 addendum('C18', 'set-returning functions make their callers\' iterations '
          'order-sensitive consumptions (R1, interprocedural); module/'
          'class-level pid values may only be compared for equality.')
+
+
+# ---- round 5 (DESIGN.md 8.4, "Round 5")
+addendum('C01', 'R9: no one-shot iterator over the rendered expressions is '
+         'consumed twice on one path (sa/genreuse.py).')
+addendum('C02', 'R9: the same for the proposals / nodes of a sweep.')
+addendum('C03', 'R8 also demands that the un-escape of a literal body comes '
+         'before any cut; fixed-point loops may be written "while v != 0".')
+addendum('C04', 'R11: no caller consumes, untested, the result of a function '
+         'that returns None on some path and a value on another.')
+addendum('C06', 'provenance follows absolute os.path.join components, module '
+         'globals and the temp-file-name function (R2).')
+addendum('C07', 'R9 one-shot iterators; R10 StringIO buffers without newline '
+         'translation.')
+addendum('C08', 'R8: regular expressions for string literals / quoted '
+         'symbols are judged on their syntax tree (no backslash escapes).')
+addendum('C09', 'identity tests (is / is not) between two parameters are '
+         'atoms of their own in the truth table.')
+addendum('C10', 'R7: options assigned at run time are never read in an '
+         'expression evaluated at import time (parameter defaults, class '
+         'bodies, module level).')
+addendum('C12', 'counters written over a walker (sum over dfs/filter_nodes) '
+         'are judged by the effective depth limit and the filter.')
+addendum('C14', 'R7 joint scenario: with all groups unset a group is '
+         'disabled only after every node was shown to its is_relevant; R10 '
+         'one-shot iterators in the pass builders.')
+addendum('C15', 'R9 one-shot iterators in the mutators.')
+addendum('C18', 'R3: results discarded after a success do not move the '
+         'resume position (linear forms with min); pid / thread-id values '
+         'are followed to file names and equality tests (R1b).')
